@@ -26,7 +26,9 @@ let init () =
           | KBinary -> "-" in
         "kind=" ^ kind_str t ^ " bpp=" ^ z_out (bpp t) ^ " sbits=" ^ z_out (sbits t)
         ^ " nbytes=" ^ string_of_int (Stdlib.List.length (to_be_bytes t (color_black t)))
-        ^ " max=" ^ mx ^ " black=" ^ z_out (into_storage t (color_black t)) ^ " white=" ^ z_out (into_storage t (color_white t)))
+        ^ " max=" ^ mx ^ " black=" ^ z_out (into_storage t (color_black t)) ^ " white=" ^ z_out (into_storage t (color_white t))
+        (* Default: the all-zero value (C12_default_valid: valid, = BLACK / Off) *)
+        ^ " default=" ^ z_out (into_storage t (z_of_int 0)))
     | _ -> "BAD-ARGS");
   register "col_raw" (function
     | [n; start; count; stride] -> with_row n (fun t ->
